@@ -49,9 +49,9 @@ def alignment_branch(repo: Repo) -> RuleRun:
         ("anti-aligned & defined", (b, a), True, "G.inverted", False),
         ("aligned but undefined", (a, b), False, "own", False),
         ("anti-aligned but undefined", (b, a), False, "own", False),
-        # grading again (second write, vertex moved in between): the copy is refreshed although the wire already has a grading
-        ("aligned & defined, wire graded before", (a, b), True, "G", True),
-        ("anti-aligned & defined, wire graded before", (b, a), True, "G.inverted", True),
+        # (a wire that is defined already when copy_neighbours runs is no scenario any more: since repair c828cc1 every grading pass
+        #  starts from reset wires, and within one pass the source gradings do not change - not refreshing such a wire has become
+        #  behaviour-preserving; seed C04-r3m3, which did that, sits in the neutral list)
     ):
         w = _wire(repo, "w", a, b)
         own = grading("own", own_defined)
